@@ -3,6 +3,7 @@ package c04
 import (
 	"encoding/json"
 	"fmt"
+	"os"
 	"strings"
 	"testing"
 
@@ -12,6 +13,7 @@ import (
 	"github.com/nspcc-dev/neo-go/pkg/core/transaction"
 	"github.com/nspcc-dev/neo-go/pkg/io"
 	"github.com/nspcc-dev/neo-go/pkg/neotest"
+	"github.com/nspcc-dev/neo-go/pkg/smartcontract"
 	"github.com/nspcc-dev/neo-go/pkg/smartcontract/callflag"
 	"github.com/nspcc-dev/neo-go/pkg/smartcontract/trigger"
 	"github.com/nspcc-dev/neo-go/pkg/util"
@@ -122,6 +124,12 @@ func newWorld(t testing.TB, idx int) (w *world, err error) {
 		txs = append(txs, p.Call("setup-block-account", cs, p.PolH, "blockAccount", w.dummies[k]))
 	}
 	for s := 0; s < nBase; s++ {
+		if os.Getenv("C04_SETUP_FIXED_FEES") != "" {
+			// diagnostic knob: no test invocation of the set-up deployments
+			sc, _ := smartcontract.CreateCallScript(p.MgmtH, "deploy", w.nef[1], w.man[s][1], nil)
+			txs = append(txs, p.Tx("setup-deploy", []neotest.Signer{u0.S}, sc, 40_0000_0000))
+			continue
+		}
 		txs = append(txs, p.Call("setup-deploy", []neotest.Signer{u0.S}, p.MgmtH, "deploy", w.nef[1], w.man[s][1], nil))
 	}
 	if p.AddBlock(txs...) == nil {
